@@ -163,6 +163,39 @@ def run_job(job):
                 out["residual"] = float(max(r1.abs().max(), r2.abs().max()))
                 nrm = (X * X).sum(-1) - (Y * Y).sum(-1)
                 out["rpa_norm_dev"] = float((nrm - 1.0).abs().max())
+        if "args" in captured and job.get("independent", True) and not job.get("window") and torch.equal(mol.species, mol.species[0].expand_as(mol.species)):
+            # (A+B) of the response problem rebuilt WITHOUT the response code: orbital-energy differences plus twice the projection
+            # of the SCF Fock builder's two-electron part for the symmetrised transition density of every occupied x virtual pair
+            from seqm.seqm_functions.fock import fock as scf_fock
+            from seqm.seqm_functions.hcore import hcore
+            from seqm.seqm_functions.pack import pack, unpack
+
+            m_, w, ea_ei, Cocc, Cvirt = captured["args"]
+            nm, nb, no = Cocc.shape
+            nv = Cvirt.shape[2]
+            nov = no * nv
+            if nov <= 40 and m_ is mol:
+                eye = torch.eye(nov, dtype=w.dtype).unsqueeze(0).expand(nm, nov, nov).contiguous()
+                Ac, Bc = orig_mv(m_, eye, w, ea_ei, Cocc, Cvirt, True)
+                M, w2 = hcore(mol)[:2]
+                pr = mol.parameters
+                size = 4 * mol.molsize
+
+                def Fb(P):
+                    Fm = scf_fock(mol.nmol, mol.molsize, P, M, mol.maskd, mol.mask, mol.idxi, mol.idxj, w2, None, pr["g_ss"], pr["g_pp"], pr["g_sp"], pr["g_p2"], pr["h_sp"], mol.method,
+                                  pr["s_orb_exp_tail"], pr["p_orb_exp_tail"], pr["d_orb_exp_tail"], mol.Z, pr["F0SD"], pr["G2SD"])
+                    return Fm.triu() + Fm.triu(1).transpose(1, 2)
+
+                F0 = Fb(torch.zeros(nm, size, size, dtype=w.dtype))
+                ref = torch.zeros(nm, nov, nov, dtype=w.dtype)
+                de = ea_ei.reshape(nm, nov)
+                for r in range(nov):
+                    jj, bb = divmod(r, nv)
+                    T = torch.einsum("nm,nk->nmk", Cocc[:, :, jj], Cvirt[:, :, bb])
+                    G = pack(Fb(unpack(T + T.transpose(1, 2), mol.nHeavy, mol.nHydro, size)) - F0, mol.nHeavy, mol.nHydro)
+                    ref[:, r, :] = 2.0 * torch.einsum("nmi,nmk,nka->nia", Cocc, G, Cvirt).reshape(nm, nov)
+                    ref[:, r, r] += de[:, r]
+                out["apb_independent_dev"] = float((Ac + Bc - ref).abs().max() / (Ac + Bc).abs().max())
     except Exception as ex:  # noqa
         out["outcome"] = "raised"
         out["error"] = f"{type(ex).__name__}: {str(ex)[:300]}"
